@@ -147,3 +147,20 @@ def embed(decls, tname, ename, i, k):
         else:
             out.append((n, fs))
     return out
+
+
+def embed_reuse(decls, tname, i, k):
+    """replace fields [i, i+k) of [tname] by an embedded struct that is ALREADY declared (and used
+    elsewhere as a named field) when one with exactly these fields exists; None otherwise"""
+    fs = dict(decls)[tname]
+    run = fs[i:i + k]
+    for n2, fs2 in decls:
+        if n2 != tname and fs2 == run:
+            out = []
+            for n, f in copy.deepcopy(decls):
+                if n == tname:
+                    out.append((n, f[:i] + [{"names": [], "type": ("b", n2), "tag": None}] + f[i + k:]))
+                else:
+                    out.append((n, f))
+            return out
+    return None
